@@ -92,13 +92,21 @@ class Observer:
 PREFIX_BOX = [-1.0, 3.0]
 
 
-def prefix_reward(cfg, p, t):
+def prefix_reward(cfg, p, t, visits=None):
     """Mode B: concrete reward of round t of the prefix - an objective-like function of the (concrete)
     point plus deterministic dyadic pseudo-noise, so that the tree grows the way it does in real use"""
     spec = cfg["prefix"]
     if not isinstance(p, (list, tuple)) or not p or isinstance(p[0], Sym) or p[0] is None:
         return 0.0  # the code under test returned no usable point: the observers report it, the run goes on
     x = float(p[0])
+    if spec.get("pattern") == "spread_flat":
+        # per point: 1, 0, 1, 0 on its first four evaluations, then 0.5 - the empirical variance of a cell first grows,
+        # then shrinks (variance-aware thresholds move both ways)
+        key = tuple(float(v) for v in p)
+        k = 0 if visits is None else visits.get(key, 0)
+        if visits is not None:
+            visits[key] = k + 1
+        return (1.0, 0.0, 1.0, 0.0)[k] if k < 4 else 0.5
     lo, hi = PREFIX_BOX
     u = (x - lo) / (hi - lo)
     peak = spec.get("peak", 0.3)
@@ -132,6 +140,7 @@ def drive(ctx, cfg, observers=(), dom=None, algo=None, T=None, last_point=True, 
         ob.start(ctx, cfg, algo, dom)
     T = cfg["T"] if T is None else T
     rs = []
+    _visits = {}
     for k in range(1, T + 1):
         t = times[k - 1] if times is not None else k
         if pre and k == pre["P"] + 1:
@@ -143,7 +152,7 @@ def drive(ctx, cfg, observers=(), dom=None, algo=None, T=None, last_point=True, 
         for ob in observers:
             ob.after_pull(k, p)
         if pre and k <= pre["P"]:
-            r = prefix_reward(cfg, p, k)
+            r = prefix_reward(cfg, p, k, _visits)
         else:
             r = rewards[k - 1] if rewards is not None else ctx.real("r%d" % k)
         rs.append(r)
